@@ -22,7 +22,9 @@ RULE = ("blocks: every (length, size, hop) in a grid x pad kind x entry point (b
         "the list (extend append += truncate setitem insert del slice-assign, only items not handed over yet) between "
         "two next() calls, 8 script patterns x size 1..4 x hop 1..5 x 6 start lengths through 18 kind/entry "
         "combinations; non-trivial = a change made after a complete block followed by another complete block. "
-        "Distinct = distinct case hash.")
+        "Round 3: pads and items also include objects given and compared BY IDENTITY through an object table "
+        "(builtin function, class, lambda, bound method, partial, object with __call__, generator function, Stream, "
+        "NaN, list, dict, plain object): a callable pad is data. Distinct = distinct case hash.")
 EXHAUSTIVE = {"quick": True, "thorough": False}
 trusted_base = ["item type of the model is the 4-constructor 'item' (ints, strings, None, exact rationals), in the round-2 "
                 "families paired with the Python type name (negative zero is its own type tag, tuples travel as repr); "
